@@ -320,16 +320,23 @@ def summarise(ctx, rule, bname, sc, zaccessors=("_segment_close_point", "z_point
         ev.on_stmt = on_stmt
     if direct is not None:
         ev.vals[direct] = ("op", 0)
-    body = []
+    body, post = [], []
+    seen_loop = False
     for s in fn.body:
         if s is lp:
             body.extend(lp.body)
+            seen_loop = True
+        elif seen_loop:
+            post.append(s)
         else:
             body.append(s)
     # raise on a missing current point: find the exception by running the scenario "no current point" is not needed: read it off the guard
     res = ev.run(body)
-    if res[0] == "continue":
-        res = ("fall", None)  # `continue` in the operand-group loop: this group is done
+    if res[0] in ("continue", "break", "fall"):
+        # `continue` / `break` in the operand-group loop: this group is done; what follows the loop still runs
+        res = ev.run(post) if post else ("fall", None)
+        if res[0] in ("continue", "break"):
+            res = ("fall", None)
     out.exit = res[0]
     out.exit_node = res[1]
     for t in cur_tests:
